@@ -67,14 +67,19 @@ def build(seed, k):
         elif d == 'col_into_index':
             # a required column that is not a column: it sits in the index (set_index with the default drop=True), in one
             # level of a MultiIndex, or only its *name* survives as the name of the index
-            cs = rng.sample(REQ, rng.choice([1, 1, 2]))
+            cs = [c for c in rng.sample(REQ, rng.choice([1, 1, 2])) if c in df.columns]
             how = rng.choice(['set_index', 'set_index', 'rename_axis', 'multi_with_extra'])
-            if how == 'set_index':
-                arg = df.set_index(cs if len(cs) > 1 else cs[0])
-            elif how == 'rename_axis':
-                arg = df.drop(columns=cs[0]).rename_axis(cs[0])
-            else:
-                arg = df.assign(station='x').set_index(['station', cs[0]])
+            if not cs or 'station' in df.columns or isinstance(df.index, pd.MultiIndex) or df.index.name is not None:
+                continue
+            try:
+                if how == 'set_index':
+                    arg = df.set_index(cs if len(cs) > 1 else cs[0])
+                elif how == 'rename_axis':
+                    arg = df.drop(columns=cs[0]).rename_axis(cs[0])
+                else:
+                    arg = df.assign(station='x').set_index(['station', cs[0]])
+            except Exception:          # pandas refuses the construction: not an input anybody can hand over
+                arg = df
         elif d == 'dup_row' and n:
             arg = pd.concat([df, df.iloc[[i]]], ignore_index=rng.random() < 0.5)
         elif d == 'dup_after_coercion' and n:
